@@ -25,14 +25,14 @@ With(m, k, v) == [j \in DOMAIN m \cup {k} |-> IF j = k THEN v ELSE m[j]]
 IsKeySlot(x, i) == x.s[i].count > 0 \/ x.s[i].count = -1
 UsedOf(m) == LET RECURSIVE S(_) S(ks) == IF ks = {} THEN 0 ELSE LET k == CHOOSE k \in ks : TRUE IN Need(m[k][2]) + S(ks \ {k}) IN S(DOMAIN m)
 \* ---- abstract expectation ----
-ExpOk == CASE Ev.op = "put" -> PutOk(st, map, Ev.a, Ev.len)
+ExpOk == CASE Ev.op = "put" -> Ev.len > 0 /\ PutOk(st, map, Ev.a, Ev.len)         \* an empty value is refused as an invalid argument
            [] Ev.op = "rm" -> Ev.a \in DOMAIN map
            [] Ev.op = "rmidx" -> IsKeySlot(st, Ev.a)
            [] Ev.op = "get" -> Ev.a \in DOMAIN map
            [] OTHER -> TRUE
-ExpErr == CASE Ev.op = "put" -> 4 [] Ev.op \in {"rm", "get", "rmidx"} -> 1 [] OTHER -> 0
+ExpErr == CASE Ev.op = "put" -> (IF Ev.len = 0 THEN 2 ELSE 4) [] Ev.op \in {"rm", "get", "rmidx"} -> 1 [] OTHER -> 0
 \* the abstract map after the call; a refused put may leave its own key unchanged or absent (decided by what is observed)
-NewMaps == CASE Ev.op = "put" -> IF ExpOk THEN {With(map, Ev.a, <<Ev.vid, Ev.len>>)} ELSE {map, Without(map, Ev.a)}
+NewMaps == CASE Ev.op = "put" -> IF ExpOk THEN {With(map, Ev.a, <<Ev.vid, Ev.len>>)} ELSE IF Ev.len = 0 THEN {map} ELSE {map, Without(map, Ev.a)}
              [] Ev.op = "rm" -> {Without(map, Ev.a)}
              [] Ev.op = "rmidx" -> IF IsKeySlot(st, Ev.a) THEN {Without(map, st.s[Ev.a].key)} ELSE {map}
              [] Ev.op = "clear" -> {<<>>}
@@ -58,7 +58,7 @@ Why == IF Ev.op = "free" THEN (IF Ev.live # 0 THEN {"leak"} ELSE {}) \cup (IF ~E
             \cup (IF ~Ev.guard_ok THEN {"guard"} ELSE {})
             \cup (IF Ev.ovl # 0 THEN {"overlap"} ELSE {}) \cup (IF Ev.bf # 0 THEN {"badfree"} ELSE {})
 \* ---- informational conformance: the transcription's next image from the previous real image ----
-Pred == CASE Ev.op = "put" -> PutObj(st, Ev.a, <<Ev.vid, Ev.len>>, 3)[1]
+Pred == CASE Ev.op = "put" -> (IF Ev.len = 0 THEN st ELSE PutObj(st, Ev.a, <<Ev.vid, Ev.len>>, 3)[1])
           [] Ev.op = "rm" -> (LET i == GetIdx(st.s, Ev.a, Home[Ev.a]) IN IF i < 0 THEN st ELSE RemoveByIdx(st, i)[1])
           [] Ev.op = "rmidx" -> RemoveByIdx(st, Ev.a)[1]
           [] Ev.op = "clear" -> EmptySt
